@@ -11,6 +11,12 @@ COMPONENTS = {
         'real',
     'cache eviction schedule': 'real policy, seeded knobs (period, memory '
                                'threshold, importance overrides)',
+    'allocation failures inside a request': 'simulated: the n-th nested '
+    'computation (subclass __getitem__), the n-th call of a Python function '
+    'of the aurel package (sys.settrace) or the n-th einsum (the name np '
+    'inside aurel.core is rebound to a counting proxy of numpy) raises '
+    'MemoryError; position counted from the start or, after a dry run on a '
+    'throw-away twin in the same cache state, from the end of the request',
     'reference model': 'harness: fresh AurelCore with clean-up disabled, '
                        'asked only the one request',
     'exact GR reference (refgr)': 'harness, independent NumPy implementation'}
